@@ -86,6 +86,68 @@ def const_value(src: str, name: str):
     return eval_const(m.group(1)) if m else None
 
 
+def registry_facts(repo: Path):
+    """C10 (round 4, agent tree): source facts about the registries.  Returns Lean lines."""
+    cell = strip_comments(read(repo, "ractor/src/actor/actor_cell.rs"))
+    actor = strip_comments(read(repo, "ractor/src/actor.rs"))
+    inner = strip_comments(read(repo, "ractor/src/thread_local/inner.rs"))
+    pidreg = strip_comments(read(repo, "ractor/src/registry/pid_registry.rs"))
+    out = []
+    # every call site of set_status(ActorStatus::Stopped) outside tests, with its enclosing fn
+    sites = []
+    for rel in ("ractor/src/actor.rs", "ractor/src/actor/actor_cell.rs", "ractor/src/thread_local/inner.rs",
+                "ractor/src/actor/actor_ref.rs", "ractor/src/actor/actor_properties.rs",
+                "ractor/src/thread_local.rs", "ractor/src/actor/derived_actor.rs"):
+        src = strip_comments(read(repo, rel))
+        for m in re.finditer(r"\.set_status\(\s*ActorStatus::Stopped\s*\)", src):
+            fns = list(re.finditer(r"\bfn\s+(\w+)", src[:m.start()]))
+            sites.append((rel.split("/")[-1] + ":" + (fns[-1].group(1) if fns else "?")))
+    out.append("/-- every non-test call site of `set_status(ActorStatus::Stopped)`: file:enclosing fn -/")
+    out.append(f"def stoppedCallSites : List String := {lean_strs(sites)}")
+    # spawn_linked_remote: the extra set_status(Stopped) comes after `start(...)` has returned an error
+    body = fn_body(actor, "spawn_linked_remote") or ""
+    i_start = body.find(".start(")
+    m = re.search(r"if\s+result\.is_err\(\)\s*\{\s*\w+\.set_status\(\s*ActorStatus::Stopped\s*\)\s*;\s*\}", body)
+    out.append("/-- `spawn_linked_remote`: `set_status(Stopped)` only inside `if result.is_err()` after `start(..).await` -/")
+    out.append(f"def remoteStoppedAfterFailedStart : Bool := {str(bool(m) and 0 <= i_start < m.start()).lower()}")
+    # set_status: registry::unregister(name) guarded by is_local()
+    ss = fn_body(cell, "set_status", cell.find("pub(crate) fn set_status")) or ""
+    guarded = re.search(r"if\s+self\.get_id\(\)\.is_local\(\)\s*\{\s*crate::registry::unregister\(name\)\s*;\s*\}", ss) is not None
+    n_unreg = len(re.findall(r"registry::unregister\(", ss))
+    out.append("/-- `set_status`: the one `registry::unregister(name)` sits inside `if self.get_id().is_local()` (fix of F2) -/")
+    out.append(f"def unregisterGuardedByIsLocal : Bool := {str(guarded and n_unreg == 1).lower()}")
+    nr = fn_body(cell, "new_remote") or ""
+    out.append("/-- `ActorCell::new_remote` touches neither registry -/")
+    out.append(f"def newRemoteTouchesRegistries : Bool := {str('registry::' in nr).lower()}")
+    # ActorCell::new: register ; register_pid ; on Err unregister(name)
+    nb = fn_body(cell, "new", cell.find("pub(crate) fn new<TActor>")) or ""
+    calls = re.findall(r"registry::(?:pid_registry::)?(register_pid|register|unregister)\(", nb)
+    out.append("/-- registry calls of `ActorCell::new` in source order -/")
+    out.append(f"def newRegistryCalls : List String := {lean_strs(calls)}")
+    rb = re.search(r"if\s+let\s+Err\(err\)\s*=\s*crate::registry::pid_registry::register_pid\([^{}]*?\)\s*\{\s*if\s+let\s+Some\(r_name\)\s*=\s*&name\s*\{\s*crate::registry::unregister\(r_name\)\s*;\s*\}\s*return\s+Err", nb) is not None
+    out.append("/-- … and the `unregister` is the rollback inside `if let Err(err) = register_pid(..)`, followed by `return Err` -/")
+    out.append(f"def newRollsBackOnPidFailure : Bool := {str(rb).lower()}")
+    tl = fn_body(inner, "new_thread_local") or ""
+    calls_tl = re.findall(r"registry::(?:pid_registry::)?(register_pid|register|unregister)\(", tl)
+    out.append("/-- the thread-local twin of `ActorCell::new` -/")
+    out.append(f"def newThreadLocalRegistryCalls : List String := {lean_strs(calls_tl)}")
+    # pid registry: every entry point is guarded by is_local(); fan-out after the insert / after the remove
+    guards = []
+    for f in ("register_pid", "unregister_pid", "where_is_pid"):
+        b = (fn_body(pidreg, f) or "").strip()
+        guards.append((f, b.startswith("if id.is_local()")))
+    out.append("/-- pid registry entry points whose body is `if id.is_local() { … }` -/")
+    out.append("def pidRegistryLocalGuards : List (String × Bool) := [" +
+               ", ".join(f"({lean_str(k)}, {str(v).lower()})" for k, v in guards) + "]")
+    rp = fn_body(pidreg, "register_pid") or ""
+    up = fn_body(pidreg, "unregister_pid") or ""
+    sp_ok = 0 <= rp.find("v.insert(") < rp.find("PidLifecycleEvent::Spawn") and "Occupied" in rp[:rp.find("v.insert(")]
+    tm_ok = 0 <= up.find(".remove(&id)") < up.find("PidLifecycleEvent::Terminate") and up.count("PidLifecycleEvent::") == 1
+    out.append("/-- `register_pid`: `Spawn` is sent only in the `Vacant` arm, after the insert; `unregister_pid`: `Terminate` only if `remove` returned an entry -/")
+    out.append(f"def pidEventsAfterTableChange : Bool := {str(bool(sp_ok and tm_ok)).lower()}")
+    return out
+
+
 def main():
     ap = argparse.ArgumentParser()
     ap.add_argument("--repo", default="/repo")
@@ -270,6 +332,9 @@ def main():
     w("")
     w("/-- `thread_local/inner.rs` twins token-identical to `actor.rs` (modulo the boxed loop future) -/")
     w(f"def threadLocalTwins : List (String × Bool) := [{', '.join(f'({lean_str(k)}, {str(v).lower()})' for k, v in twins.items())}]")
+    w("")
+    for line in registry_facts(repo):
+        w(line)
     w("")
     w("end Extracted")
     text = "\n".join(out) + "\n"
